@@ -116,7 +116,8 @@ Inductive qxop :=
 | QIterMut (suf : bytes)
 | QEOrIns (k v : bytes) | QEOrInsWith (k v : bytes) | QEAndMod (k suf v : bytes) | QEInsert (k v : bytes)
 | QERemove (k : bytes) | QERemoveEntry (k : bytes) | QEGetMut (k suf : bytes)
-| QLen | QTRepo (u : bytes) | QTGet | QTHas | QTDel | QTCs (ops : list cop) | QTCsGet | QKeyCmp (s : bytes).
+| QLen | QTRepo (u : bytes) | QTGet | QTHas | QTDel | QTCs (ops : list cop) | QTCsGet | QKeyCmp (s : bytes)
+| QTKIns (i : nat) (v : bytes) | QTKGet (i : nat) | QTKDel (i : nat).
 Inductive qxout :=
 | XoU | XoUV (v : bytes) | XoE | XoOpt (o : option bytes) | XoB (b : bool) | XoPanic
 | XoVC (v : bytes) (called : bool) | XoOcc2 (g old : bytes) | XoVac | XoVacV (v : bytes) | XoOcc (v : bytes) | XoOccKV (k v : bytes)
@@ -190,6 +191,9 @@ Definition qxstep (q : quals) (o : qxop) : quals * qxout :=
                    | None => XoOpt None
                    | Some v => match cs_try_from cfg v with Ok m => XoCs (cs_sort m) | Err _ => XoE end end)
   | QKeyCmp s => (q, XoKe (map (fun kv => (cmp_is_eq (qkey_cmp cfg (fst kv) s), qkey_cmp cfg (fst kv) s)) q))
+  | QTKIns i v => match q_insert cfg q (nth i (typed_keys cfg) []) v with Ok q' => (q', XoU) | Err _ => (q, XoPanic) end
+  | QTKGet i => (q, XoOpt (q_get cfg q (nth i (typed_keys cfg) [])))
+  | QTKDel i => (fst (q_remove cfg q (nth i (typed_keys cfg) [])), XoU)
   end.
 Fixpoint qxrun (q : quals) (ops : list qxop) : quals * list qxout :=
   match ops with
